@@ -196,15 +196,17 @@ ZeroC(t) == CASE t.k \in {"int", "bool", "char"} -> Zeros(SizeOf(t))
 \* the bytes of a scalar C value in memory
 BytesOf(t, c) == IF t.k = "float" THEN c.img ELSE c
 
-RECURSIVE ConvertItem(_, _), ConvSeq(_, _, _), Flat(_, _, _)
-\* convert the Python values vs[i..] to the types ts[i..]; stops at the first error
+RECURSIVE ConvertItem(_, _), ConvSeq(_, _, _)
+\* convert the Python values vs to the types ts; the result is that of the first failing one.
+\* (No recursion over the list: argument lists have hundreds of items.  i is always 1.)
 ConvSeq(ts, vs, i) ==
-    IF i > Len(vs) THEN Ok(<<>>)
-    ELSE LET h == ConvertItem(ts[i], vs[i]) IN
-         IF ~h.ok THEN h
-         ELSE LET r == ConvSeq(ts, vs, i + 1) IN
-              IF ~r.ok THEN r ELSE Ok(<<h.c>> \o r.c)
-Flat(t, cs, i) == IF i > Len(cs) THEN <<>> ELSE BytesOf(t, cs[i]) \o Flat(t, cs, i + 1)
+    LET rs == TLCEval([j \in 1..Len(vs) |-> ConvertItem(ts[j], vs[j])])
+        bad == {j \in 1..Len(vs) : ~rs[j].ok}
+    IN IF bad # {} THEN rs[CHOOSE j \in bad : \A j2 \in bad : j <= j2]
+       ELSE Ok(TLCEval([j \in 1..Len(vs) |-> rs[j].c]))
+\* the bytes of an array of scalars cs of type t
+Flat(t, cs, i) == LET sz == SizeOf(t) IN
+                  TLCEval([k \in 1..(Len(cs) * sz) |-> BytesOf(t, cs[((k - 1) \div sz) + 1])[((k - 1) % sz) + 1]])
 
 ConvStruct(t, v) ==
     CASE v.k = "cstruct" ->
@@ -381,8 +383,10 @@ VSumFrom(tags, cs, mem, i) == IF i > Len(cs) THEN Zeros(8)
 
 \* sums over arrays of hundreds of items: add the 8 digit columns with TLC's own integers
 \* (a column sum stays far below 2^31), then propagate the carries once
-RECURSIVE ColSum(_, _, _), Carry(_, _, _), FieldSum(_, _, _)
-ColSum(vals, d, i) == IF i > Len(vals) THEN 0 ELSE vals[i][d] + ColSum(vals, d, i + 1)
+RECURSIVE ColRange(_, _, _, _), Carry(_, _, _), FieldSum(_, _, _)
+ColRange(vals, d, lo, hi) == IF lo > hi THEN 0 ELSE IF lo = hi THEN vals[lo][d]
+                             ELSE LET mid == (lo + hi) \div 2 IN ColRange(vals, d, lo, mid) + ColRange(vals, d, mid + 1, hi)
+ColSum(vals, d, i) == ColRange(vals, d, i, Len(vals))
 Carry(cols, d, c) == IF d > Len(cols) THEN <<>>
                      ELSE <<(cols[d] + c) % Base>> \o Carry(cols, d + 1, (cols[d] + c) \div Base)
 SumVals(vals) == LET cols == TLCEval([d \in 1..8 |-> ColSum(vals, d, 1)]) IN Carry(cols, 1, 0)
